@@ -85,6 +85,7 @@ class Core(object):
         self.read_timeouts = []           # timeout argument of every bulk_read / bulk_write
         self.connected = False
         self.connects = 0
+        self.double_connects = 0
         self.closes = 0
         self.in_transport = 0             # mutual exclusion monitor
         self.mutex_violations = 0
@@ -133,6 +134,8 @@ class Core(object):
             self._raise_fault(f, "connect", timeout)
         if self.refuse_connect is not None:
             raise self.refuse_connect
+        if self.connected:
+            self.double_connects += 1        # a second connection opened on top of one that was never closed (leaked socket / busy USB interface)
         self.connects += 1
         self.connected = True
         self.sim.new_connection()
